@@ -34,6 +34,12 @@ type Style struct {
 	// Not drawn by RandomStyle and not shown by String() when 0, so existing
 	// users of the package see no change; C10 sets it itself.
 	ZeroPad int
+	// BareCR > 0 uses a carriage return as plain white space (Thrift's lexer
+	// skips [ \t\r\n]*), never inside /**@ docstrings or literals:
+	// 1 = line ends "\r\r\n", 2 = a CR in front of every line's indentation,
+	// 3 = a CR instead of the blank between the tokens of a statement.
+	// Like ZeroPad: not drawn by RandomStyle, not shown by String() when 0.
+	BareCR int
 }
 
 // DefaultStyle is the plain rendering.
@@ -61,6 +67,9 @@ func (s Style) String() string {
 	if s.ZeroPad > 0 {
 		out += fmt.Sprintf(" z%d", s.ZeroPad)
 	}
+	if s.BareCR > 0 {
+		out += fmt.Sprintf(" barecr%d", s.BareCR)
+	}
 	return out
 }
 
@@ -84,6 +93,9 @@ type renderer struct {
 }
 
 func (r *renderer) sp() string {
+	if r.s.BareCR == 3 {
+		return "\r"
+	}
 	if r.s.Tabs {
 		return "\t"
 	}
@@ -358,10 +370,38 @@ func RenderFile(f *File, s Style) string {
 	if !s.TrailingNL {
 		out = strings.TrimRight(out, "\n")
 	}
+	if s.BareCR == 1 || s.BareCR == 2 {
+		out = crLineBreaks(out, s.BareCR)
+	}
 	if s.CRLF {
 		out = strings.ReplaceAll(out, "\n", "\r\n")
 	}
 	return out
+}
+
+// crLineBreaks rewrites every line break outside /**@ docstrings: mode 1 to
+// "\r\r\n", mode 2 to "\n\r" (a CR in front of the next line's indentation).
+func crLineBreaks(text string, mode int) string {
+	var b strings.Builder
+	inDoc := false
+	for i := 0; i < len(text); i++ {
+		switch {
+		case !inDoc && strings.HasPrefix(text[i:], "/**@"):
+			inDoc = true
+		case inDoc && strings.HasPrefix(text[i:], "*/"):
+			inDoc = false
+		}
+		if text[i] == '\n' && !inDoc {
+			if mode == 1 {
+				b.WriteString("\r\r\n")
+			} else {
+				b.WriteString("\n\r")
+			}
+			continue
+		}
+		b.WriteByte(text[i])
+	}
+	return b.String()
 }
 
 // WriteProgram renders every file of p into dir and returns the root path.
